@@ -77,9 +77,11 @@ class Rel:
         self.extra = []
         self.nq = 0
 
-    def prove(self, s1, s2, goal, timeout=int(os.environ.get("HDCV_REL_TIMEOUT_MS", "3000"))):
+    def prove(self, s1, s2, goal, timeout=None):
         """one lockstep query, in a forked child with a hard wall-clock limit (z3's own timeout is not always honoured
         inside quantifier instantiation); anything but `unsat` means: no lemma is carried forward"""
+        if timeout is None:
+            timeout = int(int(os.environ.get("HDCV_REL_TIMEOUT_MS", "4000")) * float(os.environ.get("HDCV_LOAD_SCALE", "1")))
         self.nq += 1
         t0 = time.time()
         rfd, wfd = os.pipe()
